@@ -498,6 +498,34 @@ pub fn run(ctx: &Ctx) {
         })
     }, check_point_bytes);
 
+    ctx.listed("special_coordinate_encodings", "encodings whose coordinates are 0, 1, p-1, p, n, 2^256-1 in every combination, under every prefix 00/02/03/04/06/07 and lengths 33/65 (the pair (0,0) is the way some encoders write the point at infinity: it is not a curve point); x = 0 is a genuine abscissa, so 02/03||0 and 04||0||sqrt(b) must decode", || {
+        let pr = r2::params();
+        let vals: Vec<BigUint> = vec![BigUint::zero(), BigUint::one(), pr.p - 1u32, pr.p.clone(), pr.n.clone(), (BigUint::one() << 256) - 1u32];
+        let mut v = Vec::new();
+        for prefix in [0u8, 2, 3, 4, 6, 7] {
+            for x in &vals {
+                let mut b = vec![prefix];
+                b.extend_from_slice(&to32(x));
+                v.push(PointBytes { bytes: Hex(b.clone()) });
+                for y in &vals {
+                    let mut c = b.clone();
+                    c.extend_from_slice(&to32(y));
+                    v.push(PointBytes { bytes: Hex(c) });
+                }
+            }
+        }
+        // the two genuine points with x = 0
+        let zero = r2::fp(&BigUint::zero());
+        if let Some(y) = pr.curve.b.sqrt_3mod4() {
+            for yy in [y.clone(), y.neg()] {
+                let q = Some((zero.clone(), yy));
+                v.push(PointBytes { bytes: Hex(r2::encode_uncompressed(&q)) });
+                v.push(PointBytes { bytes: Hex(r2::encode_compressed(&q)) });
+            }
+        }
+        v
+    }, check_point_bytes);
+
     ctx.listed("small_x_plus_p", "on-curve points with small x encoded as x + p (non-canonical alias), compressed and uncompressed", || {
         let pr = r2::params();
         let mut v = Vec::new();
